@@ -7,6 +7,9 @@ import PyamgV.Proofs.Cycle
 import PyamgV.Proofs.GsSweep
 import PyamgV.Proofs.ExtC05RefineEx
 import PyamgV.Proofs.ExtComplexGsEnergy
+import PyamgV.Proofs.ExtC05BridgeEx
+import PyamgV.Proofs.ExtC05BridgeCEx
+import PyamgV.Proofs.ExtC05BridgeBool
 
 /-! # C05 — a solver that reports symmetric smoothing yields a Hermitian preconditioner
 
@@ -197,6 +200,40 @@ restate flag_denseM_symmetric_example := PyamgV.C05Ex.example_denseM_symmetric
 /-- … where `denseM` does return a matrix (kernel evaluation) -/
 restate flag_denseM_symmetric_example_runs := PyamgV.C05Ex.denseM5_isSome
 
+/-! ## the bridge from the concrete CSR data (extension E23, Proofs/ExtC05Bridge*.lean)
+
+`c05Check` (`Proofs/ExtC05BridgeCheck.lean`, import-free, evaluated by the driver op `ext_c05_symh` on every
+hierarchy of the check) is a Boolean on the concrete arrays: non-empty lists, installed smoothers, shapes,
+distinct C-points, one stored non-zero diagonal entry per row, in-range column indices, and the model's own
+`hermitianHierarchy` (dense copies: `A = Aᵀ`, `R = Pᵀ`, `Ac = Acᵀ`). -/
+
+/-- `shapedB = true → Shaped` -/
+restate check_shaped_sound := PyamgV.C05.shaped_of_B
+/-- `lvlOkB = true → LvlOK`: distinct C-points, one stored non-zero diagonal entry per row -/
+restate check_lvlOK_sound := PyamgV.C05.lvlOK_of_B
+/-- `installedB = true → Installed` -/
+restate check_installed_sound := PyamgV.C05.installed_of_B
+/-- with in-range column indices the CSR operator `csrOp` of the proofs is the dense copy `denseOfCsr` of the
+model, for every vector -/
+restate csrOp_is_dense_copy := PyamgV.C05.csrOp_dense
+/-- dense copies with `Q = Pᵀ`, in-range indices ⇒ `csrOp Q` is the adjoint of `csrOp P` -/
+restate adjoint_of_dense_transpose := PyamgV.C05.isAdj_of_dense
+/-- the model's Boolean `hermitianHierarchy id` and in-range indices ⇒ the operator-level hypothesis `SymH` -/
+restate hermitianHierarchy_sound := PyamgV.C05.symH_of_check
+/-- `dataOk id = true` ⇒ `Shaped`, `LvlOK` on every level, `SymH` -/
+restate check_data_sound := PyamgV.C05.dataOk_sound
+/-- **flag `True` and `c05Check = true` ⇒ the executed matrix `denseM` is symmetric** (V and W): every
+hypothesis is a Boolean evaluated on the concrete data -/
+restate flag_denseM_symmetric_checked := PyamgV.C05.flag_denseM_symmetric_checked
+/-- the instance the driver runs (`ℚ`, `ofRat = id`) -/
+restate flag_denseM_symmetric_checked_rat := PyamgV.C05.flag_denseM_symmetric_checked_rat
+/-- non-vacuity: the checker evaluates to `true` on the 3-point Poisson two-level hierarchy (kernel evaluation) … -/
+restate check_example_true := PyamgV.C05Ex.check5
+/-- … so its `denseM` is symmetric with no hypothesis left, … -/
+restate check_example_symmetric := PyamgV.C05Ex.example_denseM_symmetric_checked
+/-- … and it does reject a hierarchy with `R ≠ Pᵀ` -/
+restate check_example_rejects := PyamgV.C05Ex.check5_rejects
+
 /-! ## complex Hermitian hierarchies (extension E5: realification bridge, Proofs/ExtComplex*.lean)
 
 A complex vector is a pair `(Re, Im) : V × V` over an ordered field, `Jop` is multiplication by `i`,
@@ -229,5 +266,68 @@ restate complex_cycle_preconditioner := PyamgV.ccycle_preconditioner
 restate complex_precond_psd := PyamgV.cprecond_psd
 /-- non-vacuity of `complex_Mop_hermitian_parts`: a two-level hierarchy over `[[2, i], [−i, 2]]` -/
 restate complex_example_hierarchy := PyamgV.ExC.example_pwfs
+
+/-! ## the executed complex cycle model (extension E23, Proofs/ExtC05BridgeF*.lean, ExtC05BridgeC*.lean)
+
+The refinement chain of the real case re-proved **over an arbitrary field** (namespace `PyamgV.CF`: the same
+executable definitions `denseM`, `solveLvl`, `applySm`, `solveDense`, the same operator definitions `MopL`,
+`smOp`; the order instances of the original statements are not used by their proofs), and Hermitian
+adjointness over a field with involution (`StarRing`; Gaussian rationals: `star = CRat.conj`) for the form
+`sdot n u v = Σ_{i<n} star(u_i) v_i`. -/
+
+/-- every smoother of the cycle model is the linear iteration `x + smOp (b − A x)`, any field -/
+restate field_sm_isLinIter := PyamgV.CF.C05.sm_isLinIter
+/-- the executed smoothers read through `fn` are the function-level smoothers `smFn`, any field -/
+restate field_executed_smoother_refines := PyamgV.CF.C05.applySm_refines
+/-- the executed recursion `solveLvl` read through `fn` is the abstract recursion `cyc`, any field -/
+restate field_executed_cycle_refines := PyamgV.CF.C05.solveLvl_refines
+/-- Gauss–Jordan coarsest solve, any field: returns the solution if there is one, … -/
+restate field_coarse_solve_unique := PyamgV.CF.C05.solveDense_unique
+/-- … what it returns solves the system, … -/
+restate field_coarse_solve_sound := PyamgV.CF.C05.solveDense_sound
+/-- … and one success makes the coarsest matrix invertible -/
+restate field_coarse_matrix_invertible_of_success := PyamgV.CF.C05.coarseInv_of_success
+/-- **`denseM` over any field (in particular the complex model over `CRat`) is the matrix of the textbook
+operator** `MopL (Ac⁻¹) c levels` over `smOp` (replaces the per-instance comparison `M == mopMat` as the
+proved path for complex data) -/
+restate field_denseM_is_textbook_operator := PyamgV.CF.C05.denseM_is_operator
+/-- conjugate symmetry of `sdot` -/
+restate sdot_conj := PyamgV.CF.sdot_conj
+/-- adjoint smoother pairs, Hermitian level matrices, `R = Pᴴ`, Hermitian coarsest solve ⇒ `MopL .V`, `MopL .W`
+self-adjoint for `sdot` -/
+restate MopL_hermitian := PyamgV.CF.MopL_symS
+/-- the backward sweep is the Hermitian adjoint of the forward sweep (Hermitian `A`, real diagonal) -/
+restate sweepOp_reverse_hermitian_adj := PyamgV.CF.sweepOp_reverse_adjS
+/-- partners (`levelOk_partner`) have Hermitian-adjoint operators: Gauss–Seidel / SOR forward–backward,
+symmetric sweeps, Jacobi, cf/fc Jacobi, with the rational `ω` of the specifications -/
+restate partner_hermitian_adjoint := PyamgV.CF.partner_adjointS
+/-- the stored diagonal of a Hermitian CSR operator is real -/
+restate hermitian_diagonal_real := PyamgV.CF.C05.diagFn_real
+/-- **flag `True` ⇒ the executed matrix `denseM` over a field with involution is Hermitian** (operator-level
+hypotheses `SymHS`, `LvlOK`, `Shaped`) -/
+restate flag_denseM_hermitian := PyamgV.CF.C05.flag_denseM_hermitian
+/-- the model's Boolean `hermitianHierarchy star` and in-range indices ⇒ `SymHS` -/
+restate hermitianHierarchy_sound_complex := PyamgV.CF.C05.symHS_of_check
+/-- **flag `True` and `c05Check star = true` ⇒ `denseM` is Hermitian**, any field with involution -/
+restate flag_denseM_hermitian_checked := PyamgV.CF.C05.flag_denseM_hermitian_checked
+/-- the model's scalar embedding `CRat.ofRat` is the rational cast of the field `CRat` -/
+restate crat_ofRat_is_cast := PyamgV.CRat.ofRat_eq_cast
+/-- **the instance the driver runs for complex data** (`denseM CRat.ofRat`, checker `c05Check CRat.conj`, op
+`ext_c05_symh c`): flag `True` and checker `true` ⇒ `M i j = conj (M j i)` -/
+restate flag_denseM_hermitian_checked_crat := PyamgV.CF.C05.flag_denseM_hermitian_checked_crat
+/-- the Boolean `herm` the driver prints for `c05_cyc r …` (`M == mconjT id M n n`) is `true` when the flag is
+`True` and `c05Check id` is `true` (what `props/c05.py` enforces on every evaluated hierarchy) -/
+restate driver_herm_bool_real := PyamgV.C05.herm_bool_rat
+/-- the same for `c05_cyc c …` (`M == mconjT CRat.conj M n n`) and `c05Check CRat.conj` -/
+restate driver_herm_bool_complex := PyamgV.C05.herm_bool_crat
+/-- non-vacuity: on `A = [[2, i], [−i, 2]]`, `P = [1, −i]ᵀ`, `R = Pᴴ`, `Ac = [6]` with forward / backward
+Gauss–Seidel the checker evaluates to `true` (kernel evaluation), … -/
+restate complex_check_example_true := PyamgV.C05ExC.checkC
+/-- … `denseM` returns a matrix, … -/
+restate complex_check_example_runs := PyamgV.C05ExC.denseMC_isSome
+/-- … which is Hermitian with no hypothesis left; … -/
+restate complex_check_example_hermitian := PyamgV.C05ExC.example_denseM_hermitian
+/-- … with `R = Pᵀ` in the place of `Pᴴ` the checker says `false` -/
+restate complex_check_example_rejects := PyamgV.C05ExC.checkC_rejects
 
 end PyamgV.Props.C05
